@@ -219,11 +219,9 @@ func (x Expr) GetNodes(n gen.Node) (results []gen.Node) {
 							if i < 0 {
 								i = len(tv) + i
 							}
-							var v gen.Node
 							if 0 <= i && i < len(tv) {
-								v = tv[i]
+								results = append(results, tv[i])
 							}
-							results = append(results, v)
 						}
 					}
 				}
@@ -512,6 +510,11 @@ func (x Expr) FirstNode(n gen.Node) (result gen.Node) {
 		case Union:
 			for ui := len(tf) - 1; 0 <= ui; ui-- {
 				u := tf[ui]
+				if fi == index(len(x))-1 { // last one
+					// The first match in listed order is wanted, not the
+					// reverse order used to push on to the stack.
+					u = tf[len(tf)-1-ui]
+				}
 				switch tu := u.(type) {
 				case string:
 					if tv, ok := prev.(gen.Object); ok {
@@ -533,13 +536,13 @@ func (x Expr) FirstNode(n gen.Node) (result gen.Node) {
 						}
 						if 0 <= i && i < len(tv) {
 							v = tv[i]
-						}
-						if fi == index(len(x))-1 { // last one
-							return v
-						}
-						switch v.(type) {
-						case gen.Object, gen.Array:
-							stack = append(stack, v)
+							if fi == index(len(x))-1 { // last one
+								return v
+							}
+							switch v.(type) {
+							case gen.Object, gen.Array:
+								stack = append(stack, v)
+							}
 						}
 					}
 				}
